@@ -635,6 +635,9 @@ def py_array_length(array):
 
 @wrap_array_func
 def py_array_slice(array, start, stop):
+    # the translator has already turned a negative bound into len + bound: one that is still negative lies before the beginning
+    if start is not None and start < 0: start = 0
+    if stop is not None and stop < 0: stop = 0
     return dumps(array[start:stop])
 
 def py_make_array(*items):
